@@ -1,7 +1,7 @@
 """C16 - ForestIndex is a bijection that numbers non-forest edges first."""
 from lib import engine
 from lib.core import tier
-from units import k15_forestindex
+from units import k15_forestindex, k15a_forest
 
 LEVEL = "other"
 EXPLANATION = (
@@ -10,12 +10,17 @@ EXPLANATION = (
     "edges), writes only inside reverse_index[0..m), makes index/reverse_index mutually inverse (hence a "
     "bijection onto 0..m-1) and gives exactly the off-forest edges the indices below m-n+k.  The loop of the "
     "code is closed by its loop contract; the cap m<=16 comes only from defining ghost prefix counts by an "
-    "unwound harness loop.  BOUNDED stand-in: the whole class and spanning_forest itself on every labelled graph "
+    "unwound harness loop.  PROVED(n<=5, thorough 8) by CBMC (DFCC, three nested loop contracts, ghost vertex / adjacency slot / "
+    "queue position / output position): detail::spanning_forest itself - returns c >= 1 with exactly n-c emitted edges; every emitted "
+    "edge joins an earlier-discovered vertex to the vertex it discovers, which is no component root and is discovered by exactly "
+    "this edge; every vertex is reached; adjacent vertices get the same component label and each label has one root - from which "
+    "'c = number of components, the emitted edges are a spanning forest' follows by the lemma of DESIGN 10.7.  std::unordered_set, "
+    "std::queue and boost::out_edges enter through their contracts; the filling of the set is a separate bounded unit (n<=24).  BOUNDED stand-in: the whole class and spanning_forest itself on every labelled graph "
     "with n<=6, families and seeded random graphs, against union-find.")
 
 
 def run(rep):
-    engine.run_units(rep, k15_forestindex.units(tier()))
+    engine.run_units(rep, k15_forestindex.units(tier()) + k15a_forest.units(tier()))
     engine.run_native(rep, "e3_components", driver="e3_components[C16]", args=["--only", "C16"],
                       functions={"ForestIndex (whole class)": "bounded(all graphs n<=6 + families + random)",
                                  "detail::spanning_forest": "bounded(all graphs n<=6 + families + random)"},
